@@ -64,7 +64,7 @@ MALFORMED = [
     b"**;;\n",
 ]
 
-DELAYS = [0.0, 0.0, 0.0, 0.005, 0.03, 0.07, 0.15, 0.4]
+DELAYS = [0.0, 0.0, 0.005, 0.03, 0.07, 0.15, 0.15, 0.4]
 
 
 def materialise(case):
@@ -80,7 +80,22 @@ def materialise(case):
         else:
             items.append(("b", MALFORMED[it[1] % len(MALFORMED)], None))
     stream = b"".join(x[1] for x in items)
-    cuts = sorted({int(c * len(stream) / 10000) for c in case["cuts"]} - {0, len(stream)}) if stream else []
+    # cuts: permille positions, or structural ones ("s", line index, where): just after the first
+    # byte, in the middle, before the ';' and before the terminating newline of a line
+    offs = []
+    off = 0
+    for x in items:
+        offs.append((off, len(x[1])))
+        off += len(x[1])
+    cutset = set()
+    for c in case["cuts"]:
+        if isinstance(c, (list, tuple)):
+            a, n = offs[c[1] % len(offs)]
+            rel = [1, n // 2, max(n - 2, 0), max(n - 1, 0)][c[2] % 4]
+            cutset.add(a + rel)
+        else:
+            cutset.add(int(c * len(stream) / 10000))
+    cuts = sorted(cutset - {0, len(stream)}) if stream else []
     bounds = [0] + cuts + [len(stream)]
     segs = []
     long_budget = 2.5
@@ -199,7 +214,7 @@ def run_radar(case):
                     break
             time.sleep(0.15)
             before = s.log_bytes_lines()
-            s.srv.drop()
+            s.srv.drop(reset=bool(drop.get("reset")))
             if not drop["retry"]:
                 rc = s.p.wait_exit(8.0)
                 allout = bytes(s.p.out).decode(errors="replace")
@@ -309,6 +324,8 @@ def classify(case):
         cls.append("pause > 50 ms inside a well-formed line")
     if case.get("drop"):
         cls.append("drop with retry" if case["drop"]["retry"] else "drop without retry")
+        if case["drop"].get("reset"):
+            cls.append("abortive drop (RST)")
     if len(segs) > 3:
         cls.append("fragmented")
     return cls, (bad_then_good or cut_in_good_slow or bool(case.get("drop")))
@@ -324,11 +341,11 @@ def worker(args):
     from hypothesis import given, settings, seed, HealthCheck, strategies as st, Phase
     rec = pbt.Recorder(PID)
     item = st.one_of(st.tuples(st.just("g"), st.integers(0, 59)), st.tuples(st.just("b"), st.integers(0, len(MALFORMED) - 1)))
-    drop = st.one_of(st.none(), st.none(), st.fixed_dictionaries({"at": st.integers(1, 9999), "retry": st.booleans()}))
+    drop = st.one_of(st.none(), st.none(), st.fixed_dictionaries({"at": st.integers(1, 9999), "retry": st.booleans(), "reset": st.booleans()}))
     case_s = st.fixed_dictionaries({
         "client": st.sampled_from(["1090", "radar", "radar"]),
         "items": st.lists(item, min_size=1, max_size=24),
-        "cuts": st.lists(st.integers(0, 10000), max_size=24),
+        "cuts": st.lists(st.one_of(st.integers(0, 10000), st.tuples(st.just("s"), st.integers(0, 23), st.integers(0, 3))), max_size=24),
         "delays": st.lists(st.integers(0, len(DELAYS) - 1), min_size=1, max_size=8),
         "drop": drop,
     })
